@@ -291,14 +291,14 @@ func instrIs(target ssa.Instruction) func(ssa.Instruction) bool {
 func retIsNil(idx int) func(ssa.Instruction) bool {
 	return func(in ssa.Instruction) bool {
 		r, ok := in.(*ssa.Return)
-		return ok && idx < len(r.Results) && isNilConst(r.Results[idx])
+		return ok && idx < len(r.Results) && isNilConst(retVal(r, idx))
 	}
 }
 
 func retNonNil(idx int) func(ssa.Instruction) bool {
 	return func(in ssa.Instruction) bool {
 		r, ok := in.(*ssa.Return)
-		return ok && idx < len(r.Results) && !isNilConst(r.Results[idx])
+		return ok && idx < len(r.Results) && !isNilConst(retVal(r, idx))
 	}
 }
 
